@@ -316,6 +316,70 @@ def ob_subclass(ki: int, nested: bool, ci: int) -> bool:
         return H.verdict(why is None, "%s (nested=%r, compress=%r): %s" % (type(x).__name__, ne, comp, why))
 
 
+def ob_forward(thr: int, mutate: bool, layout: int) -> bool:
+    """
+    pre: 0 <= thr <= 3
+    pre: 0 <= layout <= 2
+    post: _
+    """
+    H.enter()
+    # An in-memory array sent to process workers twice from one managed Parallel context (ArrayMemmapForwardReducer:
+    # dumped to the pool's temporary folder above max_nbytes, pickled below): what the task sees is what the caller holds
+    # *at the time of the call*.
+    t, mu, la = H.select(thr, 0, 3), bool(mutate), H.select(layout, 0, 2)
+    # the array is changed in place between the two calls: recorded finding (the dump is cached by object identity)
+    H.known("KF-C19-stale-memmap-after-inplace-mutation", mu and t <= 1)
+    with H.native():
+        import numpy as np
+        import joblib.numpy_pickle as jnp
+        import joblib.numpy_pickle_utils as jnu
+        import joblib._memmapping_reducer as mr
+        from symx.stubs import fakefs
+        a = [np.arange(64, dtype="<f8"), np.asfortranarray(np.arange(64, dtype="<i4").reshape(8, 8)),
+             np.arange(128, dtype="<f8")[::2]][la]
+        a = a.copy() if la != 1 else a
+        max_nbytes = [0, a.nbytes - 1, a.nbytes, None][t]
+        fs = fakefs.FS()
+        fs.raw_reads = True
+        old_raw, old_mm, old_rt = jnu._is_raw_file, jnp.make_memmap, mr.resource_tracker
+        jnu._is_raw_file = lambda f: isinstance(getattr(f, "raw", f), (io.FileIO, fakefs.FakeRaw))
+
+        def view_memmap(filename, dtype="uint8", mode="r+", offset=0, shape=None, order="C", unlink_on_gc_collect=False):
+            cnt = int(np.prod(shape)) if shape != () else 1
+
+            class _View(np.ndarray):           # numpy.memmap's extra attribute
+                filename = None
+            v = np.frombuffer(fs.files[filename], dtype=dtype, count=cnt, offset=offset).reshape(shape, order=order).view(_View)
+            v.filename = filename
+            return v
+        registered = []
+        mr.resource_tracker = type("RT", (), {"register": staticmethod(lambda n, t_: registered.append(n)),
+                                              "maybe_unlink": staticmethod(lambda n, t_: None),
+                                              "unregister": staticmethod(lambda n, t_: None)})
+        jnp.make_memmap = view_memmap
+        why = None
+        try:
+            with fakefs.installed(fs):
+                fs.dirs.add(fakefs.PREFIX + "/pool")
+                red = mr.ArrayMemmapForwardReducer(max_nbytes, lambda: fakefs.PREFIX + "/pool/tmp", "r", False, prewarm=False)
+                for call in (1, 2):
+                    fn, args = red(a)
+                    seen = fn(*args)
+                    if not (seen.shape == a.shape and seen.dtype == a.dtype and np.array_equal(np.asarray(seen), a)):
+                        why = "call %d: the worker sees %r..., the caller holds %r..." % (
+                            call, np.asarray(seen).ravel()[:3].tolist(), a.ravel()[:3].tolist())
+                        break
+                    memmapped = fn is mr.load_temporary_memmap
+                    if max_nbytes is not None and (a.nbytes > max_nbytes) != memmapped:
+                        why = "nbytes=%d max_nbytes=%r: memmapped=%r" % (a.nbytes, max_nbytes, memmapped)
+                        break
+                    if mu:
+                        a[...] = a * 0 - 1            # in place: same object, other content
+        finally:
+            jnp.make_memmap, jnu._is_raw_file, mr.resource_tracker = old_mm, old_raw, old_rt
+        return H.verdict(why is None, "max_nbytes=%r layout=%d mutated in place=%r: %s" % (max_nbytes, la, mu, why))
+
+
 def ob_mmap(di: int, si: int, li: int, mode: int, lead: int) -> bool:
     """
     pre: 0 <= di <= 12
@@ -457,6 +521,10 @@ def obligations(tier, seed):
                     "bounds": "14 dtypes x 7 shapes x 6 layouts x (bare | nested in containers, shared)"})
     obs.append({"name": "mmap", "fn": "ob_mmap", "mode": "S", "numpy": True, "timeout": 1500,
                 "bounds": "13 dtypes x 7 shapes x C/F x 4 mmap modes x 4 leading-string lengths"})
+    obs.append({"name": "forward_reducer", "fn": "ob_forward", "mode": "S", "numpy": True, "timeout": 300,
+                "kf": ["KF-C19-stale-memmap-after-inplace-mutation"],
+                "bounds": "an in-memory array (C, Fortran, strided) sent to workers twice through ArrayMemmapForwardReducer, "
+                          "max_nbytes in {0, nbytes-1, nbytes, None}, changed in place between the calls or not"})
     obs.append({"name": "subclass", "fn": "ob_subclass", "mode": "S", "numpy": True, "timeout": 300,
                 "bounds": "MaskedArray (1-d with fill value, 2-d), recarray and a plain array, bare or nested, uncompressed / zlib / lzma"})
     obs.append({"name": "memmap_reduce", "fn": "ob_memmap_reduce", "mode": "S", "numpy": True, "params": {"memmap": True},
